@@ -78,6 +78,12 @@ func (s *PFCPSession) UpdateFAR(f *far, endMarkerList *[][]byte) error {
 				addEndMarker(v, endMarkerList)
 			}
 
+			if f.keepDstIntf {
+				// no Destination Interface in the update: the FAR keeps its interface and the local tunnel address of it
+				f.dstIntf, f.tunnelIP4Src = v.dstIntf, v.tunnelIP4Src
+				f.keepDstIntf = false
+			}
+
 			s.fars[idx] = *f
 
 			return nil
